@@ -44,6 +44,9 @@ func contractServes(c *Contract, prop string) bool {
 	for _, l := range c.Ranges {
 		all = append(all, l.Invariants...)
 	}
+	for _, r := range append(append([]MapStoreRule{}, c.MapStores...), c.OnCalls...) {
+		all = append(all, r.Clause)
+	}
 	for _, cl := range all {
 		if hasProp(cl.Props, prop) {
 			return true
